@@ -239,12 +239,18 @@ func (s *AccumulatingGroup) Groups(sort sorting.NameSorter) []GroupKey {
 	}
 	if s.sortExpr != nil {
 		ctx := accumulatorGroupSortContext{}
-		sorting.SortBy(ret, sort, func(x GroupKey) string {
+		byValueThenGroup := func(a, b [2]string) bool {
+			if a[0] == b[0] { // same sort value: order by group, not by map iteration
+				return a[1] < b[1]
+			}
+			return sort(a[0], b[0])
+		}
+		sorting.SortBy(ret, byValueThenGroup, func(x GroupKey) [2]string {
 			ctx.groupKey = string(x)
 			ctx.rowLookup = func(row string) string {
 				return s.data[x][s.colIdxLookup[row]]
 			}
-			return s.sortExpr.BuildKey(&ctx)
+			return [2]string{s.sortExpr.BuildKey(&ctx), string(x)}
 		})
 	} else {
 		sorting.SortBy(ret, sort, func(x GroupKey) string {
